@@ -57,7 +57,7 @@ theorem eval_inv (h : Inv a P) : ∀ fuel,
     (∀ sc es st, P st → P (evalList a fuel sc es st).2) ∧
     (∀ sc cs st, P st → P (evalConds a fuel sc cs st).2) ∧
     (∀ sc fr elt t cs rest src i acc st, P st → P (compLoop a fuel sc fr elt t cs rest src i acc st).2) ∧
-    (∀ ex vf vs st, P st → P (callFn a fuel ex vf vs st).2) ∧
+    (∀ ex bs vf vs st, P st → P (callFn a fuel ex bs vf vs st).2) ∧
     (∀ sc body st, P st → P (runBody a fuel sc body st).2) := by
   intro fuel
   induction fuel with
@@ -95,7 +95,7 @@ theorem eval_inv (h : Inv a P) : ∀ fuel,
       unfold compLoop
       repeat' split
       all_goals grind
-    · intro ex vf vs st hp
+    · intro ex bs vf vs st hp
       unfold callFn
       grind
     · intro sc body st hp
